@@ -31,7 +31,7 @@ func cmdWorld(prop string, seed uint64, n int, steps int, out string) {
 		atree.VerifSetThreshold(T)
 		base := NewLogBase()
 		opts := WorldOpts{Addr: 1 + uint64(hr.Intn(2)), MaxDepth: 1 + hr.Intn(3), Wrap: hr.Bool(), Maps: true,
-			Detach: prop == "C11" || hr.Chance(30), LargeVals: hr.Chance(60), PopChild: true}
+			Detach: prop == "C11" || hr.Chance(30), LargeVals: hr.Chance(60), PopChild: true, SelfSet: hr.Chance(50)}
 		if hr.Chance(35) {
 			// real pooled digester with first-level digests folded into a small alphabet (top-level maps only)
 			mod := uint64(2 + hr.Intn(12))
